@@ -38,9 +38,11 @@ ASSUME BloomBitSample ==
     LET w == <<1, 32768, 0, 40960>> IN     \* bits 0, 31, 61, 63
     \A p \in 0..63 : BloomBit(w, p) = (IF p \in {0, 31, 61, 63} THEN 1 ELSE 0)
 
+(* one state per observation, arranged as a binary tree (k -> 2k, 2k+1) so that TLC's workers
+   evaluate observations in parallel *)
 VARIABLE k
-Init == k \in 1..NObs
-Next == UNCHANGED k
+Init == k = 1 /\ NObs >= 1
+Next == \E j \in {2 * k, 2 * k + 1} : j <= NObs /\ k' = j
 Spec == Init /\ [][Next]_k
 
 Empty == [defs |-> {}, probes |-> {}]
